@@ -40,7 +40,7 @@ LEVEL_NOTE = ("Trusted: Coq kernel; extraction and ocaml/driver.ml for the corre
               "verbs answer OK by design whatever the workers did: ok_is_sound is stated for the verbs whose verdict claims "
               "application (worker verbs, load-state) and the others are an open finding.")
 TECHNIQUE = "Rocq/Coq proof over an executable Gallina model + source translator (decision tables) + differential correspondence (extracted OCaml vs real CommandHub)"
-CLAIMED = False
+CLAIMED = True
 
 SERVER = "bin/src/command/server.rs"
 REQUESTS = "bin/src/command/requests.rs"
